@@ -27,8 +27,8 @@ var hostStart = time.Unix(1257894000, 0)
 func (in *Interp) resetEnvModels() {
 	in.clockSec = int64(hostStart.Unix())
 	in.clockNsec = int64(hostStart.Nanosecond())
-	in.files = map[string][]value{}
-	in.kv = nil
+	in.files = map[string]*fileData{}
+	in.kvs = map[string]*kvModel{}
 }
 
 // timeValue builds a time.Time for "now" = base clock + virtual offset.
